@@ -11,6 +11,7 @@ CONSTANTS Shapes,        \* set of <<n, t>>
           IdSets,        \* set of identifier sets
           KeyChoices, CoeffChoices, RandChoices, Msgs,
           ListOrders,    \* orders in which the dealer is handed the identifier list: subset of {"asc","desc","rot"}
+          CoordPkps,     \* the coordinator's public key package: subset of {"current", "legacy"} (no threshold field)
           BatchAtEnd,    \* the threshold signature is finally queued (twice) in a batch verifier
           MaxExtra,      \* |S| <= t + MaxExtra
           EMIT           \* print one replayable script per finished behaviour
@@ -46,9 +47,16 @@ Choose ==
   /\ \E S \in (IF sc.t = sc.n THEN {{sc.ids[k] : k \in 1..sc.n}}      \* (no 2^n enumeration in size sweeps)
                 ELSE SUBSET {sc.ids[k] : k \in 1..sc.n}), m \in Msgs :
        /\ Card(S) >= sc.t /\ Card(S) <= sc.t + MaxExtra
-       /\ sc' = sc @@ [S |-> Sorted(S), msg |-> m]
-  /\ pc' = <<"commit", 1>>
+       /\ \E ck \in CoordPkps : sc' = sc @@ [S |-> Sorted(S), msg |-> m, coord |-> ck]
+  /\ pc' = <<"mkleg", 0>>
   /\ UNCHANGED fvars
+
+CPKP == IF sc.coord = "legacy" THEN <<"pkpLeg", 0>> ELSE PKP
+MkLegacy ==
+  /\ pc[1] = "mkleg"
+  /\ IF sc.coord = "legacy" THEN ActLieMin(<<"pkpLeg", 0>>, PKP, -1) ELSE UNCHANGED fvars
+  /\ pc' = <<"commit", 1>>
+  /\ UNCHANGED sc
 
 DoCommit ==
   /\ pc[1] = "commit"
@@ -80,7 +88,7 @@ DoVerifyShare ==
 
 DoAggregate ==
   /\ pc[1] = "aggregate"
-  /\ ActAggregate(SIG, PKG, [i \in SSet |-> <<"z", i>>], PKP, "FirstCheater")
+  /\ ActAggregate(SIG, PKG, [i \in SSet |-> <<"z", i>>], CPKP, "FirstCheater")
   /\ Go(<<"verify", 0>>)
   /\ UNCHANGED sc
 
@@ -98,7 +106,7 @@ DoBatch ==
   /\ pc' = <<"done", 0>>
   /\ UNCHANGED sc
 
-Next == DoBatch \/ KeyGen \/ MakeKp \/ Choose \/ DoCommit \/ DoPackage \/ DoSign
+Next == DoBatch \/ MkLegacy \/ KeyGen \/ MakeKp \/ Choose \/ DoCommit \/ DoPackage \/ DoSign
         \/ DoVerifyShare \/ DoAggregate \/ DoVerify
 
 Spec == Init /\ [][Next]_vars
